@@ -8,7 +8,7 @@ manages polling based on target capacity and re-polls after work completion.
 from __future__ import annotations
 
 import logging
-from dataclasses import dataclass
+from dataclasses import dataclass, field
 from typing import TYPE_CHECKING
 
 from happysimulator.components.queue import QueueDeliverEvent, QueueNotifyEvent, QueuePollEvent
@@ -48,6 +48,14 @@ class QueueDriver(Entity):
     queue: Entity = None
     target: Entity = None
 
+    # Instant at which a poll was sent whose delivery has not come back yet. The
+    # poll -> deliver -> start-of-work round trip takes several events at one
+    # instant; until the delivered item has started it does not show up in
+    # target.has_capacity(), so a second trigger must not poll again for the
+    # same free slot.
+    _poll_sent_at: Instant | None = field(default=None, init=False, repr=False)
+    _poll_wanted: bool = field(default=False, init=False, repr=False)
+
     def downstream_entities(self) -> list[Entity]:
         result: list[Entity] = []
         if self.target is not None:
@@ -63,10 +71,24 @@ class QueueDriver(Entity):
 
         return []
 
+    def _poll_in_flight(self) -> bool:
+        """True while a poll sent at this instant is still unanswered."""
+        return self._poll_sent_at is not None and self._poll_sent_at == self.now
+
+    def _poll(self, time: Instant) -> QueuePollEvent:
+        self._poll_sent_at = time
+        self._poll_wanted = False
+        return QueuePollEvent(time=time, target=self.queue, requestor=self)
+
     def _handle_delivery(self, event: QueueDeliverEvent) -> list[Event]:
         """Queue delivered one payload event; clone/retarget and re-emit."""
+        self._poll_sent_at = None
         if event.payload is None:
             logger.debug("[%s] Received empty delivery", self.name)
+            if self._poll_wanted:
+                # A trigger was held back while this (empty) poll was in flight
+                self._poll_wanted = False
+                return [QueueNotifyEvent(time=self.now, target=self, queue_entity=self.queue)]
             return []
         logger.debug(
             "[%s] Received delivery: type=%s, forwarding to target",
@@ -77,9 +99,13 @@ class QueueDriver(Entity):
 
     def _handle_work_payload(self, payload: Event) -> list[Event]:
         def schedule_poll(time: Instant):
+            if self._poll_in_flight():
+                # The item being fetched right now will re-check once it has started
+                self._poll_wanted = True
+                return None
             if self.target.has_capacity():
                 logger.debug("[%s] Target has capacity, scheduling poll", self.name)
-                return QueuePollEvent(time=time, target=self.queue, requestor=self)
+                return self._poll(time)
             logger.debug("[%s] Target at capacity, deferring poll", self.name)
             return None
 
@@ -96,9 +122,15 @@ class QueueDriver(Entity):
 
     def _handle_notify(self, _: QueueNotifyEvent) -> list[Event]:
         """Queue has work available—poll if target has capacity."""
+        if self._poll_in_flight():
+            # One poll per free slot: the delivery of the outstanding poll is
+            # followed by a re-check, which polls again if capacity remains.
+            self._poll_wanted = True
+            return []
+
         if not self.target.has_capacity():
             logger.debug("[%s] Notify received but target at capacity", self.name)
             return []
 
         logger.debug("[%s] Notify received, polling queue", self.name)
-        return [QueuePollEvent(time=self.now, target=self.queue, requestor=self)]
+        return [self._poll(self.now)]
